@@ -14,9 +14,13 @@ pub struct Sizes {
     pub secret_pool: u64,
 }
 
+pub fn pool_secret(seed: u64, which: u64) -> Vec<u8> {
+    Rng::stream(seed ^ 0x5ec2_e7, which).bytes(16)
+}
+
 fn secret(rng: &mut Rng, seed: u64, sizes: &Sizes) -> Vec<u8> {
     let which = rng.below(sizes.secret_pool.max(1));
-    Rng::stream(seed ^ 0x5ec2_e7, which).bytes(16)
+    pool_secret(seed, which)
 }
 
 fn gen_len(rng: &mut Rng, max: usize) -> usize {
